@@ -1,4 +1,7 @@
 import Nv.Model.C12
+import Nv.Proofs.C12Defs
+import Nv.Proofs.C12Cons
+import Nv.Proofs.C12Fifo
 /-!
 C12 — property theorems for the six queues (model: `Nv.Model.C12`).
 
@@ -9,7 +12,7 @@ namespace Nv.C12
 
 example : Proved Cfg.expected := by decide
 
-def LQ.items (s : LQ) : List Nat := s.ctrl ++ s.req
+
 
 /-! ### capacity: an ordinary add is refused exactly when the queue holds its capacity (0 = unbounded) -/
 
@@ -148,7 +151,7 @@ theorem mq_tryclear_iff (s : LQ) (hc : s.cleared = false) :
 /-! ### FIFO over histories (pipe queues): adds at the back, prior adds at the front, pops from the front -/
 
 /-- ordinary adds on an open unbounded queue are all accepted and queue up at the back in call order -/
-theorem q_run_adds (b : Bool) (xs : List Nat) (s : LQ) (hc : s.closed = false) (hu : s.reqCap = 0) :
+theorem q_run_adds (b : Kind) (xs : List Nat) (s : LQ) (hc : s.closed = false) (hu : s.reqCap = 0) :
     runOps (stepPipe Shape.expected b) s (xs.map .add) = ({ s with req := s.req ++ xs }, xs.map (fun _ => .ok)) := by
   induction xs generalizing s with
   | nil => simp [runOps]
@@ -160,7 +163,7 @@ theorem q_run_adds (b : Bool) (xs : List Nat) (s : LQ) (hc : s.closed = false) (
     simp
 
 /-- prior adds are accepted whatever the bound and end up in front, the latest first -/
-theorem q_run_priors (b : Bool) (xs : List Nat) (s : LQ) (hc : s.closed = false) :
+theorem q_run_priors (b : Kind) (xs : List Nat) (s : LQ) (hc : s.closed = false) :
     runOps (stepPipe Shape.expected b) s (xs.map .prior) = ({ s with req := xs.reverse ++ s.req }, xs.map (fun _ => .ok)) := by
   induction xs generalizing s with
   | nil => simp [runOps]
@@ -172,7 +175,7 @@ theorem q_run_priors (b : Bool) (xs : List Nat) (s : LQ) (hc : s.closed = false)
     simp
 
 /-- `n` pops (`Pop` on an open queue, or `PopAnyway` on any) hand out the first `n` queued items in queue order -/
-theorem q_run_pops (b : Bool) (op : Op) (n : Nat) (s : LQ) (hs : s.ctrl = []) (hn : n ≤ s.req.length)
+theorem q_run_pops (b : Kind) (op : Op) (n : Nat) (s : LQ) (hs : s.ctrl = []) (hn : n ≤ s.req.length)
     (hop : (op = .pop ∧ s.closed = false) ∨ op = .popAnyway) :
     runOps (stepPipe Shape.expected b) s (List.replicate n op) =
       ({ s with req := s.req.drop n }, (s.req.take n).map .val) := by
@@ -194,7 +197,7 @@ theorem q_run_pops (b : Bool) (op : Op) (n : Nat) (s : LQ) (hs : s.ctrl = []) (h
 
 /-- **FIFO.** From an empty open unbounded pipe queue: ordinary adds `xs`, prior adds `ps`, then pops — the pops
     hand out the prior items latest-first, then `xs` in call order. -/
-theorem q_fifo (b : Bool) (xs ps : List Nat) (n : Nat) (k : Kind) (hn : n ≤ ps.length + xs.length) :
+theorem q_fifo (b : Kind) (xs ps : List Nat) (n : Nat) (k : Kind) (hn : n ≤ ps.length + xs.length) :
     outs (stepPipe Shape.expected b) (LQ.new k 0 0) (xs.map .add ++ ps.map .prior ++ List.replicate n .pop) =
       xs.map (fun _ => .ok) ++ ps.map (fun _ => .ok) ++ ((ps.reverse ++ xs).take n).map .val := by
   have e1 := q_run_adds b xs (LQ.new k 0 0) rfl rfl
@@ -211,29 +214,6 @@ theorem q_fifo (b : Bool) (xs ps : List Nat) (n : Nat) (k : Kind) (hn : n ≤ ps
   simp [LQ.new]
 
 /-! ### conservation: nothing is lost, duplicated or invented -/
-
-def popCount (y : Nat) : Out → Nat
-  | .val v => if v = y then 1 else 0
-  | _ => 0
-
-/-- 1 when the step is an add of `y` that was accepted (SyncQueue: not dropped because closed) -/
-def addCount (y : Nat) (s : LQ) (op : Op) (o : Out) : Nat :=
-  match op with
-  | .add x | .prior x | .addCtrl x | .priorCtrl x =>
-    if x = y ∧ o = .ok ∧ (s.kind = .syncq → s.closed = false) then 1 else 0
-  | _ => 0
-
-theorem step_conservation (s : LQ) (op : Op) (y : Nat) :
-    (step Cfg.expected s op).1.items.count y + popCount y (step Cfg.expected s op).2 =
-      s.items.count y + addCount y s op (step Cfg.expected s op).2 := by
-  obtain ⟨k, ctrl, req, cc, rc, cl, clr⟩ := s
-  cases k <;> cases op <;>
-    simp only [step, Cfg.expected, stepPipe, stepMQ, stepSync, addReq, addPrior, addCtrl, addPriorCtrl, popNow, takeFront,
-      orBlock, closeQ, tryClose, tryClear, syncPush, syncPopNow, syncTryPop, Shape.expected, SyncShape.expected,
-      LQ.items, LQ.isEmpty, popCount, addCount, if_true, Bool.false_and, Bool.true_and, Bool.not_true, Bool.not_false] <;>
-    (try cases cl) <;> (try cases ctrl) <;> (try cases req) <;>
-    simp [List.count_cons, List.count_append] <;> (try split) <;>
-    (try simp_all [List.count_cons, List.count_append]) <;> (try omega)
 
 def addedIn (y : Nat) : LQ → List Op → Nat
   | _, [] => 0
@@ -255,6 +235,41 @@ theorem q_conservation (c : Cfg) (hc : Proved c) (ops : List Op) (s : LQ) (y : N
     have h2 := ih (step Cfg.expected s op).1
     simp only [final_cons, poppedIn, addedIn]
     omega
+
+/-! ### FIFO for every history
+
+For every history without front insertions (no prior add; for MQ no control traffic) — any mix of adds, `*Anyway`
+adds, refused adds, `Pop`, `PopAnyway`, closes, try-closes … from ANY state (any contents, any bound, open or
+closed): the sequence of items handed out, followed by what is still queued, IS the initial content followed by the
+accepted adds in acceptance order. So the handed-out sequence is always a prefix of `initial ++ accepted`: first in,
+first out, nothing lost, duplicated or reordered. (A prior add goes to the very front in every state:
+`q_prior_unbounded`; MQ control items always come first: `mq_ctrl_first`.) -/
+
+def poppedSeq (c : Cfg) : LQ → List Op → List Nat
+  | _, [] => []
+  | s, op :: r => poppedOf (step c s op).2 ++ poppedSeq c (step c s op).1 r
+
+def acceptedSeq (c : Cfg) : LQ → List Op → List Nat
+  | _, [] => []
+  | s, op :: r => acceptedOf s op (step c s op).2 ++ acceptedSeq c (step c s op).1 r
+
+/-- **FIFO, every history**: handed out ++ still queued = initially queued ++ accepted (in acceptance order) -/
+theorem q_fifo_history (c : Cfg) (hp : Proved c) (ops : List Op) (s : LQ) (hc : s.ctrl = [])
+    (hops : ∀ op ∈ ops, noFront op = true) :
+    poppedSeq c s ops ++ (final (step c) s ops).req = s.req ++ acceptedSeq c s ops := by
+  cases hp
+  induction ops generalizing s with
+  | nil => simp [poppedSeq, acceptedSeq]
+  | cons op r ih =>
+    have h1 := step_fifo s op hc (hops op (by simp))
+    have h2 := ih (step Cfg.expected s op).1 h1.1 (fun o ho => hops o (by simp [ho]))
+    simp only [poppedSeq, acceptedSeq, final_cons, List.append_assoc]
+    rw [h2, ← List.append_assoc, h1.2.2, List.append_assoc]
+
+/-- hence: what has been handed out so far is a prefix of `initial ++ accepted` -/
+theorem q_fifo_prefix (c : Cfg) (hp : Proved c) (ops : List Op) (s : LQ) (hc : s.ctrl = [])
+    (hops : ∀ op ∈ ops, noFront op = true) : poppedSeq c s ops <+: s.req ++ acceptedSeq c s ops :=
+  ⟨_, q_fifo_history c hp ops s hc hops⟩
 
 /-! ### PriQueue -/
 
@@ -382,6 +397,156 @@ theorem priq_wf_run (cap : Int) (ops : List POp) : PWF (final (pstep PriShape.ex
 /-- the stamp `curSeq + 1` given to the next accepted push is larger than every stamp in the queue -/
 theorem priq_push_is_latest (s : PQ) (h : PWF s) :
     ∀ e ∈ s.entries, e.seq < (s.curSeq + 1) := fun e he => Nat.lt_succ_of_le (h.1 e he)
+
+/-! ### PriQueue over histories: FIFO among equal priorities (stated without stamps) and conservation -/
+
+/-- the queue lists its entries in push order: stamps strictly increase along `entries` and are bounded by `curSeq` -/
+def PSorted (s : PQ) : Prop := (s.entries.map (·.seq)).Pairwise (· < ·) ∧ ∀ e ∈ s.entries, e.seq ≤ s.curSeq
+
+theorem psorted_step (s : PQ) (op : POp) (h : PSorted s) : PSorted (pstep PriShape.expected s op).1 := by
+  cases op with
+  | push x p =>
+    simp only [pstep]
+    by_cases hf : s.cap ≤ (s.entries.length : Int)
+    · have : pqPush PriShape.expected s x p = (s, .full) := by simp [pqPush, pqFull, PriShape.expected, hf]
+      rw [this]; exact h
+    · rw [(priq_full_iff s x p).2 hf]
+      refine ⟨?_, fun e he => ?_⟩
+      · simp only [List.map_append, List.map_cons, List.map_nil]
+        rw [List.pairwise_append]
+        refine ⟨h.1, by simp, fun a ha b hb => ?_⟩
+        simp only [List.mem_singleton] at hb
+        obtain ⟨e, he, rfl⟩ := List.mem_map.1 ha
+        have := h.2 e he
+        omega
+      · simp only [List.mem_append, List.mem_singleton] at he
+        rcases he with he | rfl
+        · have := h.2 e he; simp only; omega
+        · simp
+  | pop =>
+    have hp : (pstep PriShape.expected s .pop).1 = (pqPop PriShape.expected s).1 := by
+      simp only [pstep]; split <;> rename_i h1 <;> rw [h1]
+    rw [hp]
+    cases he : s.entries with
+    | nil => rw [(priq_order s).1 he]; exact h
+    | cons b l =>
+      obtain ⟨m, _, _, hs, _⟩ := (priq_order s).2 (by rw [he]; simp)
+      have hsub : ((pqPop PriShape.expected s).1.entries).Sublist s.entries := by rw [hs]; exact List.erase_sublist
+      have hcs : (pqPop PriShape.expected s).1.curSeq = s.curSeq := by rw [hs]
+      exact ⟨h.1.sublist (hsub.map _), fun e he' => by rw [hcs]; exact h.2 e (hsub.subset he')⟩
+  | len => exact h
+
+/-- push order is kept by every history -/
+theorem psorted_run (cap : Int) (ops : List POp) : PSorted (final (pstep PriShape.expected) (PQ.new cap) ops) :=
+  final_inv (pstep PriShape.expected) PSorted (fun _ => True) (fun s i h _ => psorted_step s i h) ops _
+    ⟨by simp [PQ.new], (fun _ h => nomatch h)⟩ (fun _ _ => trivial)
+
+/-- **Highest priority first, FIFO among equal priorities.** `entries` lists the queued items in push order (an
+    accepted push appends: `priq_full_iff`). `Pop` on a non-empty queue splits it as `pre ++ m :: post` and removes
+    `m`, where everything pushed before `m` has a strictly lower priority and nothing pushed after it has a higher one:
+    among the items of the highest priority, the one pushed first comes out. -/
+theorem priq_pop_first_of_max (s : PQ) (hs : PSorted s) (hne : s.entries ≠ []) :
+    ∃ pre m post, s.entries = pre ++ m :: post ∧ (pqPop PriShape.expected s).2 = some m ∧
+      (pqPop PriShape.expected s).1 = { s with entries := pre ++ post } ∧
+      (∀ e ∈ pre, e.prio < m.prio) ∧ (∀ e ∈ post, e.prio ≤ m.prio) := by
+  obtain ⟨m, hm, hmem, hst, hord⟩ := (priq_order s).2 hne
+  obtain ⟨pre, post, hsplit⟩ := List.append_of_mem hmem
+  have hpw := hs.1
+  rw [hsplit] at hpw
+  simp only [List.map_append, List.map_cons, List.pairwise_append, List.pairwise_cons, List.mem_map,
+    List.mem_cons] at hpw
+  have hpre : ∀ e ∈ pre, e.seq < m.seq := fun e he => hpw.2.2 e.seq ⟨e, he, rfl⟩ m.seq (Or.inl rfl)
+  have hnot : m ∉ pre := fun h => Nat.lt_irrefl _ (hpre m h)
+  refine ⟨pre, m, post, hsplit, hm, ?_, fun e he => ?_, fun e he => ?_⟩
+  · rw [hst, hsplit, List.erase_append_right _ hnot, List.erase_cons_head]
+  · have := hord e (by rw [hsplit]; simp [he])
+    have := hpre e he
+    omega
+  · have := hord e (by rw [hsplit]; simp [he])
+    omega
+
+/-- … in every state any history can reach -/
+theorem priq_fifo_among_equals (cap : Int) (ops : List POp)
+    (hne : (final (pstep PriShape.expected) (PQ.new cap) ops).entries ≠ []) :
+    ∃ pre m post, (final (pstep PriShape.expected) (PQ.new cap) ops).entries = pre ++ m :: post ∧
+      (pstep PriShape.expected (final (pstep PriShape.expected) (PQ.new cap) ops) .pop).2 = .val m.item ∧
+      (pstep PriShape.expected (final (pstep PriShape.expected) (PQ.new cap) ops) .pop).1.entries = pre ++ post ∧
+      (∀ e ∈ pre, e.prio < m.prio) ∧ (∀ e ∈ post, e.prio ≤ m.prio) := by
+  obtain ⟨pre, m, post, h1, h2, h3, h4, h5⟩ := priq_pop_first_of_max _ (psorted_run cap ops) hne
+  refine ⟨pre, m, post, h1, ?_, ?_, h4, h5⟩
+  · simp only [pstep]; split <;> rename_i heq <;> rw [heq] at h2 <;> simp at h2 ⊢; rw [h2]
+  · simp only [pstep]; split <;> rename_i heq <;> rw [heq] at h3 <;> simp at h3 ⊢ <;> rw [h3]
+
+theorem split_first {α : Type} [DecidableEq α] (a : α) : ∀ (l : List α), a ∈ l →
+    ∃ pre post, l = pre ++ a :: post ∧ a ∉ pre
+  | [], h => nomatch h
+  | x :: r, h => by
+    by_cases hx : x = a
+    · exact ⟨[], r, by simp [hx], by simp⟩
+    · have hr : a ∈ r := by
+        rcases List.mem_cons.1 h with h1 | h1
+        · exact absurd h1.symm hx
+        · exact h1
+      obtain ⟨pre, post, h1, h2⟩ := split_first a r hr
+      exact ⟨x :: pre, post, by simp [h1], by simp [h2, Ne.symm hx]⟩
+
+def pitems (s : PQ) : List Nat := s.entries.map (·.item)
+
+def ppopCount (y : Nat) : Out → Nat
+  | .val v => if v = y then 1 else 0
+  | _ => 0
+
+def ppushCount (y : Nat) (op : POp) (o : Out) : Nat :=
+  match op with
+  | .push x _ => if x = y ∧ o = .ok then 1 else 0
+  | _ => 0
+
+theorem pstep_conservation (s : PQ) (op : POp) (y : Nat) :
+    (pitems (pstep PriShape.expected s op).1).count y + ppopCount y (pstep PriShape.expected s op).2 =
+      (pitems s).count y + ppushCount y op (pstep PriShape.expected s op).2 := by
+  cases op with
+  | push x p =>
+    simp only [pstep]
+    by_cases hf : s.cap ≤ (s.entries.length : Int)
+    · have : pqPush PriShape.expected s x p = (s, .full) := by simp [pqPush, pqFull, PriShape.expected, hf]
+      rw [this]; simp [ppopCount, ppushCount]
+    · rw [(priq_full_iff s x p).2 hf]
+      by_cases hx : x = y <;> simp [pitems, ppopCount, ppushCount, List.count_append, hx]
+  | pop =>
+    cases he : s.entries with
+    | nil =>
+      have h0 := (priq_order s).1 he
+      simp only [pstep, h0]; simp [ppopCount, ppushCount]
+    | cons b l =>
+      obtain ⟨m, hm, hmem, hst, _⟩ := (priq_order s).2 (by rw [he]; simp)
+      have hpair : pqPop PriShape.expected s = ({ s with entries := s.entries.erase m }, some m) := by
+        rw [← hm, ← hst]
+      simp only [pstep, hpair, pitems, ppopCount, ppushCount]
+      obtain ⟨pre, post, hsplit, hnot⟩ := split_first m s.entries hmem
+      rw [hsplit, List.erase_append_right _ hnot, List.erase_cons_head]
+      by_cases hv : m.item = y <;> simp [List.count_append, hv] <;> omega
+  | len => simp [pstep, ppopCount, ppushCount]
+
+def ppoppedIn (y : Nat) : PQ → List POp → Nat
+  | _, [] => 0
+  | s, op :: r => ppopCount y (pstep PriShape.expected s op).2 + ppoppedIn y (pstep PriShape.expected s op).1 r
+
+def ppushedIn (y : Nat) : PQ → List POp → Nat
+  | _, [] => 0
+  | s, op :: r => ppushCount y op (pstep PriShape.expected s op).2 + ppushedIn y (pstep PriShape.expected s op).1 r
+
+/-- **PriQueue conservation**, every history, every item value: queued at the end + handed out = queued at the start +
+    accepted pushes -/
+theorem priq_conservation (ops : List POp) (s : PQ) (y : Nat) :
+    (pitems (final (pstep PriShape.expected) s ops)).count y + ppoppedIn y s ops =
+      (pitems s).count y + ppushedIn y s ops := by
+  induction ops generalizing s with
+  | nil => simp [ppoppedIn, ppushedIn]
+  | cons op r ih =>
+    have h1 := pstep_conservation s op y
+    have h2 := ih (pstep PriShape.expected s op).1
+    simp only [final_cons, ppoppedIn, ppushedIn]
+    omega
 
 /-! ### non-vacuity and the mutations of DESIGN Appendix B (the model with that shape violates the property) -/
 
